@@ -1,6 +1,7 @@
 import Pyxv.Model.OpsForm
 import Pyxv.Model.Rows17
 import Pyxv.Model.RowLoopEnv
+import Pyxv.Model.PreLoop
 /-! Driver operation for C17's repaired validation order. -/
 namespace Pyxv.Rows17
 open Lean Pyxv Pyxv.Form Pyxv.Rows
@@ -45,8 +46,23 @@ def opsC17 (op : String) (j : Json) : Option (Except String Json) :=
           hasExternal := getBoolD j "hasExternal" false,
           osm := (match j.getObjVal? "osm" with | .ok v => (match strList v with | .ok l => some l | _ => none) | _ => none),
           hasEntities := getBoolD j "hasEntities" false }
-      let guard := RowLoop.sheetGuard RowLoop.stdEnv sh rows {}
+      let guard := RowLoop.sheetGuard RowLoop.stdEnv sh rows
       pure (match RowLoop.sheet RowLoop.stdEnv sh rows with
+        | .ok () => Json.mkObj [("outcome", "pass"), ("guard", Json.bool guard)]
+        | .error (.reject w) => Json.mkObj [("outcome", "reject"), ("what", Json.str w), ("guard", Json.bool guard)]
+        | .error (.internal c s) =>
+          Json.mkObj [("outcome", "internal"), ("exc", Json.str c), ("site", Json.str s), ("guard", Json.bool guard)])
+  | "c17.header" => some do
+      let h ← getStr j "header"
+      pure (match PreLoop.headerTokens (getBoolD j "useDouble" false) h with
+        | .ok ts => Json.mkObj [("outcome", "pass"), ("tokens", Json.arr (ts.map jstr).toArray)]
+        | .error (.reject w) => Json.mkObj [("outcome", "reject"), ("what", Json.str w)]
+        | .error (.internal c s) => Json.mkObj [("outcome", "internal"), ("exc", Json.str c), ("site", Json.str s)])
+  | "c17.settings" => some do
+      let row ← trowOfJson (← j.getObjVal? "row")
+      let c : PreLoop.SCtx := { hasChoices := getBoolD j "hasChoices" false, appends := getBoolD j "appends" true }
+      let guard := PreLoop.settingsOk row
+      pure (match PreLoop.settingsOps row c with
         | .ok () => Json.mkObj [("outcome", "pass"), ("guard", Json.bool guard)]
         | .error (.reject w) => Json.mkObj [("outcome", "reject"), ("what", Json.str w), ("guard", Json.bool guard)]
         | .error (.internal c s) =>
